@@ -167,6 +167,12 @@ def _unit(arg):
             ur.errors.append('base schedule not reproducible inside worker: %s %s' % (config, pol_name))
         if hasattr(oracle, 'finish_unit'):
             oracle.finish_unit()
+            for v in getattr(oracle, 'batch_vs', None) or []:
+                v = dict(v)
+                v.setdefault('schedule', None)
+                v.setdefault('digest', None)
+                v['unit'] = {'config': config_json, 'policy': pol_name, 'slice': slice_idx}
+                ur.violations.append(v)
         ur.stats = oracle.stats
     except BaseException as e:  # noqa
         import traceback
@@ -203,8 +209,8 @@ def explore(configs, policies, bound, oracle_spec, params=None, jobs=16, seed=0,
     if total.capped:
         total.bound_done = 0
     # deterministic order regardless of scheduling
-    total.violations.sort(key=lambda v: (len(v['schedule']['dev']), json.dumps(v['schedule'], sort_keys=True),
-                                         v.get('rule', '')))
+    total.violations.sort(key=lambda v: (len(v['schedule']['dev']) if v.get('schedule') else 99,
+                                         json.dumps(v.get('schedule'), sort_keys=True), v.get('rule', '')))
     return total
 
 
@@ -233,7 +239,7 @@ def validate_fresh(total, res, run_kw=None, oracle_spec=None, params=None, extra
     seen = set()
     for v in total.violations:
         k = (v.get('rule'), v.get('site'), v.get('shape'))
-        if k in seen:
+        if k in seen or not v.get('schedule'):
             continue
         seen.add(k)
         todo.append((v['schedule'], v['digest']))
